@@ -480,3 +480,63 @@ func (w *World) structFlags(spec string) []structResult {
 	sort.Strings(bad)
 	return []structResult{{Name: "flags:bindings", OK: len(bad) == 0, Detail: fmt.Sprintf("%d flags; %s", len(got), strings.Join(bad, "; "))}}
 }
+
+// scanSliceArgs lists, for every function under contract, the calls that hand a slice to a callee
+// without contract outside /repo (such a callee could write through the slice, which the value model
+// of slices cannot see).
+func (w *World) scanSliceArgs() []string {
+	var out []string
+	var keys []string
+	for k, s := range w.funcSpecs {
+		if !strings.HasPrefix(k, "functype:") && !s.Assumed && s.Trusted == "" {
+			keys = append(keys, k)
+		}
+	}
+	sort.Strings(keys)
+	for _, k := range keys {
+		f := w.prog.funcs[k]
+		if f == nil || f.Blocks == nil {
+			continue
+		}
+		for _, b := range f.Blocks {
+			for _, ins := range b.Instrs {
+				ci, ok := ins.(ssa.CallInstruction)
+				if !ok {
+					continue
+				}
+				cc := ci.Common()
+				callee := cc.StaticCallee()
+				name := "dynamic/interface"
+				if callee != nil {
+					name = funcKey(callee)
+					if _, has := w.funcSpecs[name]; has {
+						continue
+					}
+					if callee.Pkg != nil && strings.HasPrefix(callee.Pkg.Pkg.Path(), "github.com/FollowTheProcess/spok") {
+						continue
+					}
+				} else if cc.IsInvoke() {
+					name = "invoke " + ifaceMethodKey(cc.Value.Type(), cc.Method)
+					if _, has := w.ifaceSpecs[ifaceMethodKey(cc.Value.Type(), cc.Method)]; has {
+						continue
+					}
+				} else if _, isB := cc.Value.(*ssa.Builtin); isB {
+					continue
+				}
+				for _, a := range cc.Args {
+					t := a.Type()
+					if mi, ok := a.(*ssa.MakeInterface); ok {
+						t = mi.X.Type()
+					}
+					if _, isSlice := t.Underlying().(*types.Slice); isSlice {
+						if _, isVar := a.(*ssa.Slice); isVar {
+							continue // a varargs temporary built at the call site
+						}
+						out = append(out, fmt.Sprintf("%s: %s gets a %s at %s", k, name, t, w.prog.prog.Fset.Position(ins.Pos())))
+					}
+				}
+			}
+		}
+	}
+	return out
+}
